@@ -45,6 +45,8 @@ PROFILE = gen.profile(
   p_tendon_armature=0.6,
   p_free=0.4,
   act_ball=False,  # ball/free-joint servos are C03's subject (MuJoCo 3.13 wraps their position error)
+  p_poly=0.6,  # polynomial stiffness / damping on joints and tendons
+  p_actfrcrange=0.3,
 )
 
 REPO_MODELS = ["humanoid/humanoid.xml", "pendula.xml", "tendon/armature.xml", "tendon/damping.xml", "actuation/actuators.xml"]
